@@ -265,7 +265,7 @@ pub fn check(tier: Tier, seed: u64) -> PropReport {
     );
     rep.assumptions = vec!["contracts run natively inside cw-multi-test; both worlds are rebuilt from the same generated values (the interpreter is deterministic)".into()];
     let cases = match tier {
-        Tier::Quick => 3000,
+        Tier::Quick => 10_000,
         Tier::Thorough => 100_000,
     };
     let o = drive(&Switches, "C17", tier, cases, seed);
